@@ -167,4 +167,150 @@ theorem C10_weighted_sum_instance (s : SimState) (it : Item) (cur : Name → Val
 example : (updateCompsG (· + ·) (· * ·) (fun (c : Int) => (c * c, c + 1)) (0 : Int) [(3, 2), (4, -1), (5, 0)]) =
     (2, [(4, 2), (5, -1), (6, 0)]) := by decide
 
+/-! ## 5. Configurations as written: unregistered / ill-formed components, episode schedules, `reward_info` -/
+
+theorem checkAgent_error_of_bad (a : AgentCfgRaw) (h : a.comps.any (fun cw => !cw.1.isKnown) = true) :
+    checkAgent a = .error .keyError ∨ checkAgent a = .error .validationError := by
+  unfold checkAgent
+  by_cases hu : a.comps.any (fun cw => cw.1.isUnknown) = true
+  · left; rw [if_pos hu]
+  · by_cases hi : a.comps.any (fun cw => cw.1.isInvalid) = true
+    · right; rw [if_neg hu, if_pos hi]
+    · exfalso
+      obtain ⟨cw, hcw, hk⟩ := List.any_eq_true.mp h
+      cases hc : cw.1 with
+      | known c => simp [CompCfg.isKnown, hc] at hk
+      | unknownType t => exact hu (List.any_eq_true.mpr ⟨cw, hcw, by simp [hc, CompCfg.isUnknown]⟩)
+      | invalid => exact hi (List.any_eq_true.mpr ⟨cw, hcw, by simp [hc, CompCfg.isInvalid]⟩)
+
+/-- **Unregistered or ill-formed components are refused at load.** If any agent of the configuration declares a reward
+component whose `type` is not registered (a misspelt name, a plugin that was not imported) or whose entry violates its schema,
+`from_config` raises (`KeyError` / pydantic `ValidationError`) — the game never loads with a component silently dropped. -/
+theorem C10_bad_component_rejected (σ : List Name → List Name) (raw : List AgentCfgRaw)
+    (h : ∃ a ∈ raw, a.comps.any (fun cw => !cw.1.isKnown) = true) :
+    fromConfigRaw σ raw = .error .keyError ∨ fromConfigRaw σ raw = .error .validationError := by
+  have key : checkCfg raw = .error .keyError ∨ checkCfg raw = .error .validationError := by
+    induction raw with
+    | nil => obtain ⟨a, ha, _⟩ := h; cases ha
+    | cons a rest ih =>
+      obtain ⟨b, hb, hbad⟩ := h
+      simp only [checkCfg]
+      cases hca : checkAgent a with
+      | error e =>
+        by_cases hbad' : a.comps.any (fun cw => !cw.1.isKnown) = true
+        · rcases checkAgent_error_of_bad a hbad' with h1 | h1 <;> rw [hca] at h1 <;> cases h1 <;> simp
+        · -- `a` has only known components: it cannot fail
+          exfalso
+          unfold checkAgent at hca
+          have hu : a.comps.any (fun cw => cw.1.isUnknown) = false := by
+            rw [List.any_eq_false]; intro cw hcw
+            have : cw.1.isKnown = true := by
+              cases hk : cw.1.isKnown with
+              | true => rfl
+              | false => exact absurd (List.any_eq_true.mpr ⟨cw, hcw, by simp [hk]⟩) hbad'
+            cases hc : cw.1 <;> simp_all [CompCfg.isKnown, CompCfg.isUnknown]
+          have hi : a.comps.any (fun cw => cw.1.isInvalid) = false := by
+            rw [List.any_eq_false]; intro cw hcw
+            have : cw.1.isKnown = true := by
+              cases hk : cw.1.isKnown with
+              | true => rfl
+              | false => exact absurd (List.any_eq_true.mpr ⟨cw, hcw, by simp [hk]⟩) hbad'
+            cases hc : cw.1 <;> simp_all [CompCfg.isKnown, CompCfg.isInvalid]
+          rw [hu, hi] at hca
+          simp at hca
+      | ok c =>
+        simp only
+        have hrest : ∃ a ∈ rest, a.comps.any (fun cw => !cw.1.isKnown) = true := by
+          rcases List.mem_cons.mp hb with rfl | hb'
+          · rcases checkAgent_error_of_bad b hbad with h1 | h1 <;> rw [hca] at h1 <;> cases h1
+          · exact ⟨b, hb', hbad⟩
+        rcases ih hrest with h1 | h1 <;> simp [h1]
+  unfold fromConfigRaw
+  rcases key with h1 | h1 <;> simp [h1]
+
+/-- a configuration whose components are all registered and well-formed loads exactly as its typed form does -/
+theorem C10_known_components_load (σ : List Name → List Name) (cfgs : List AgentCfg) :
+    fromConfigRaw σ (cfgs.map (fun c => { ref := c.ref, comps := c.comps.map (fun cw => (CompCfg.known cw.1, cw.2)) })) =
+      fromConfig σ cfgs := by
+  have hagent : ∀ c : AgentCfg, checkAgent { ref := c.ref, comps := c.comps.map (fun cw => (CompCfg.known cw.1, cw.2)) } = .ok c := by
+    intro c
+    unfold checkAgent
+    have h1 : (c.comps.map (fun cw => (CompCfg.known cw.1, cw.2))).any
+        (fun cw => cw.1.isUnknown) = false := by
+      rw [List.any_eq_false]; intro cw hcw; obtain ⟨x, _, rfl⟩ := List.mem_map.mp hcw; simp [CompCfg.isUnknown]
+    have h2 : (c.comps.map (fun cw => (CompCfg.known cw.1, cw.2))).any
+        (fun cw => cw.1.isInvalid) = false := by
+      rw [List.any_eq_false]; intro cw hcw; obtain ⟨x, _, rfl⟩ := List.mem_map.mp hcw; simp [CompCfg.isInvalid]
+    simp only [h1, h2, Bool.false_eq_true, if_false, List.filterMap_map]
+    have : c.comps.filterMap ((fun cw : CompCfg × Val => cw.1.toComp?.map (fun c => (c, cw.2))) ∘
+        (fun cw => (CompCfg.known cw.1, cw.2))) = c.comps := by
+      induction c.comps with
+      | nil => rfl
+      | cons x xs ih =>
+        rw [List.filterMap_cons]
+        have hx : ((fun cw : CompCfg × Val => cw.1.toComp?.map (fun c => (c, cw.2))) ∘ (fun cw : Comp × Val => (CompCfg.known cw.1, cw.2))) x
+            = some x := rfl
+        rw [hx, ih]
+    rw [this]
+  have hall : checkCfg (cfgs.map (fun c => { ref := c.ref, comps := c.comps.map (fun cw => (CompCfg.known cw.1, cw.2)) })) = .ok cfgs := by
+    induction cfgs with
+    | nil => rfl
+    | cons c rest ih => simp only [List.map_cons, checkCfg, hagent c, ih]
+  unfold fromConfigRaw
+  rw [hall]
+
+/-- **Episode schedules.** `reset` for episode `ep` of ANY schedule of configurations gives exactly the game `from_config` builds
+from that episode's configuration (or its refusal): nothing of the previous episode — its agents, components, memories, totals,
+evaluation order — survives, also when the next configuration has other agents or other components. -/
+theorem C10_reset_schedule (σ : List Name → List Name) (hσ : SetLike σ) (schedule : Nat → List AgentCfgRaw) (ep : Nat)
+    (s0 : SimState) : resetEnvRaw σ schedule ep s0 = fromConfigRaw σ (schedule ep) := by
+  unfold resetEnvRaw fromConfigRaw
+  cases checkCfg (schedule ep) with
+  | error e => rfl
+  | ok cfgs => exact C10_reset_is_fresh_load σ hσ cfgs s0
+
+/-- **`reward_info`.** What `update_reward` leaves in the newest history item: untouched without a
+`GreenAdminDatabaseUnreachablePenalty`; otherwise `{"connection_attempt_status": …}` as written by the LAST such component
+(`response.status` if this item is its database-client request, `"n/a"` otherwise). -/
+theorem C10_reward_info_written (it : Item) (comps : List (Comp × Val)) :
+    ((∀ cw ∈ comps, ∀ n st m, cw.1 ≠ .greenDb n st m) → rewardInfoAfter it comps = it.rewardInfo) ∧
+    (∀ pre post n st m w, comps = pre ++ (.greenDb n st m, w) :: post → (∀ cw ∈ post, ∀ n' st' m', cw.1 ≠ .greenDb n' st' m') →
+      rewardInfoAfter it comps = greenDbRewardInfo it n) := by
+  have hnone : ∀ (l : List (Comp × Val)) (it : Item), (∀ cw ∈ l, ∀ n st m, cw.1 ≠ .greenDb n st m) →
+      rewardInfoAfter it l = it.rewardInfo := by
+    intro l
+    induction l with
+    | nil => intro it _; rfl
+    | cons cw rest ih =>
+      intro it h
+      obtain ⟨c, w⟩ := cw
+      have hrest := ih it (fun cw hcw => h cw (List.mem_cons_of_mem _ hcw))
+      cases c with
+      | greenDb n st m => exact absurd rfl (h (.greenDb n st m, w) (List.mem_cons_self ..) n st m)
+      | _ => simpa [rewardInfoAfter] using hrest
+  have hinfo : ∀ (it : Item) (x : PyVal) (n : Name), greenDbRewardInfo { it with rewardInfo := x } n = greenDbRewardInfo it n := by
+    intro it x n; rfl
+  constructor
+  · exact hnone comps it
+  · intro pre post n st m w hc hpost
+    subst hc
+    have key : ∀ (pre : List (Comp × Val)) (it' : Item), it'.request = it.request → it'.status = it.status →
+        rewardInfoAfter it' (pre ++ (.greenDb n st m, w) :: post) = greenDbRewardInfo it n := by
+      intro pre
+      induction pre with
+      | nil =>
+        intro it' hr hs
+        simp only [List.nil_append, rewardInfoAfter]
+        rw [hnone post _ hpost]
+        show greenDbRewardInfo it' n = greenDbRewardInfo it n
+        unfold greenDbRewardInfo Item.requestIs
+        rw [hr, hs]
+      | cons cw rest ih =>
+        intro it' hr hs
+        obtain ⟨c, w'⟩ := cw
+        cases c with
+        | greenDb n' st' m' => simp only [List.cons_append, rewardInfoAfter]; exact ih _ hr hs
+        | _ => simp only [List.cons_append, rewardInfoAfter]; exact ih _ hr hs
+    exact key pre it rfl rfl
+
 end Primaite.Reward
